@@ -34,30 +34,15 @@ LEVEL_NOTE = "assumption A-wait: for a signal-terminated status os.WEXITSTATUS()
 
 F = "tornado/process.py"
 FN = "fork_processes"
-# abstract wait statuses: name -> (signalled?, terminating signal, exit status)
-STATUS = {"sig1": (True, 1, 0), "sig9": (True, 9, 0), "sig15": (True, 15, 0), "exit0": (False, 0, 0), "exit1": (False, 0, 1), "exit2": (False, 0, 2), "exit255": (False, 0, 255)}
+from ..x_waitstatus import STATUS, Evaluator
+
 CLASSES = tuple(STATUS)
 ABNORMAL = frozenset(c for c in STATUS if c != "exit0")
-
-
-def _status_subst(e, status, cls):
-    """Copy of expression ``e`` with the os.W* macros on ``status`` replaced by their value for class ``cls``."""
-    table = {
-        "WIFSIGNALED": STATUS[cls][0], "WIFEXITED": not STATUS[cls][0], "WEXITSTATUS": STATUS[cls][2],
-        "WTERMSIG": STATUS[cls][1], "WIFSTOPPED": False, "WCOREDUMP": False, "WIFCONTINUED": False,
-    }
-
-    class T(ast.NodeTransformer):
-        def visit_Call(self, node):
-            if isinstance(node.func, ast.Attribute) and node.func.attr in table and len(node.args) == 1 and q.dotted(node.args[0]) == status:
-                return ast.Constant(value=table[node.func.attr])
-            return self.generic_visit(node)
-
-    return T().visit(copy.deepcopy(e))
+_EV = None
 
 
 def _eval_on_class(e, status, cls):
-    return bool(q.fold(_status_subst(e, status, cls), {}))
+    return bool(_EV.fold(e, status, cls))
 
 
 class Anchors:
@@ -65,6 +50,8 @@ class Anchors:
 
 
 def resolve(ck):
+    global _EV
+    _EV = Evaluator(ck.repo, F)
     A = Anchors()
     fi = ck.func(F, FN)
     A.fi = fi
